@@ -138,6 +138,11 @@ macro_rules! holds {
 }
 
 pub fn timed_out_is_infra(out: &RunOut) -> Option<Verdict> {
+    if out.deadlocked {
+        // not slowness: three attempts in a row ended with every thread of the tool blocked and no CPU time used for
+        // 12 s - a state from which the run cannot complete, on an input the property says is handled
+        return Some(Verdict::Fail(format!("the tool does not complete on a well-formed input: all its threads are blocked and it uses no CPU time (three attempts in a row): {}", out.describe())));
+    }
     if out.timed_out {
         Some(Verdict::Infra(format!("tool run hit the watchdog: {}", out.describe())))
     } else {
